@@ -220,12 +220,12 @@ pub fn run(ctx: &Ctx) -> i32 {
     let b = crate::props::c11b::run_b(ctx);
     acc.merge(b);
     let meta = Meta {
-        rule: "(a) BFS over SharedMemory histories (<= 4 nested contexts, <= 96 bytes each) from 3 initial histories, de-duplicated by per-context contents plus stale bytes in the backing buffer; (b) programs mixing memory operations with nested calls and return windows; distinct = distinct (state, op kind, nesting) and distinct program outcomes".into(),
+        rule: "(a) BFS over SharedMemory histories (<= 4 nested contexts, <= 96 bytes each) from 3 initial histories, de-duplicated by per-context contents plus stale bytes in the backing buffer; (b) every macro program of depth <= 3 (quick) / <= 4 (thorough) over a 26-macro memory alphabet (MSTORE at 0 / 480 / 704 / 16384, MSTORE8, MLOAD of used and fresh memory, MSIZE, MCOPY, KECCAK256, calls with return windows that overlap / abut / exceed the caller's memory to contracts returning 32 or 64 bytes, a code-less account, the identity precompile, a child that itself writes memory and calls frame-less targets, reverting and halting callees, CREATE, RETURN) on FRONTIER, BYZANTIUM, CANCUN with the step monitor recording memory around every call; distinct = distinct (state, op kind, nesting) and distinct program outcomes".into(),
         assumptions: vec!["memory is only grown (resize to a smaller size is never issued by the interpreter)".into(), "all accesses are inside the current length, as the interpreter guarantees by resizing first".into()],
         bounds: json!({"depth": depth, "max_contexts": 4, "max_context_bytes": 96}),
         min_distinct: 200,
         exhaustive: true,
-        explanation: "reference = Vec<Vec<u8>>; compared after every operation".into(),
+        explanation: "(a) reference = Vec<Vec<u8>>, compared after every operation; (b) per instruction: size multiple of 32 and monotone, fresh frames start empty, expansion charged by the quadratic formula, fresh memory reads zero, caller memory unchanged across a call outside the return window".into(),
     };
     finish(ctx, acc, meta, &replay)
 }
